@@ -15,6 +15,9 @@ def key(state):
 
 class Graph:
     def __init__(self, edges, init_state):
+        # TLC's emission order depends on the worker schedule: order the edges by content, so that the seeded choices below
+        # pick the same behaviours in every run
+        edges.sort(key=lambda e: json.dumps({k: v for k, v in e.items() if not k.startswith("_")}, sort_keys=True, default=str))
         self.edges = edges
         self.out = defaultdict(list)
         self.inc = defaultdict(list)
